@@ -26,7 +26,12 @@ func drawLiveHeavyCase(rt *rapid.T) psCase {
 	p := psCase{NChan: 1}
 	nl := rapid.IntRange(2, 4).Draw(rt, "nlive")
 	for i := 0; i < nl; i++ {
-		p.Lives = append(p.Lives, liveSpec{Fence: drawFence(rt, fmt.Sprintf("live%d", i)), DelayUs: rapid.IntRange(0, 300).Draw(rt, "delay")})
+		l := liveSpec{Fence: drawFence(rt, fmt.Sprintf("live%d", i)), DelayUs: rapid.IntRange(0, 300).Draw(rt, "delay")}
+		if i > 0 && rapid.Bool().Draw(rt, "leaves") {
+			l.Leave = rapid.SampledFrom([]string{"quit", "close"}).Draw(rt, "leave")
+			l.LeaveUs = rapid.IntRange(0, 2000).Draw(rt, "leaveus")
+		}
+		p.Lives = append(p.Lives, l)
 	}
 	if rapid.Bool().Draw(rt, "chanfence") {
 		p.Fences = append(p.Fences, drawFence(rt, "f0"))
